@@ -376,7 +376,14 @@ def alpha(text):
 def tag(ty):
     """interpolated type as shown in rendered templates: reference levels are dropped, `#x` prints
     the same tokens whether x is a T, a &T or a &&T"""
-    return (ty or "?").replace("&", "")
+    ty = (ty or "?").replace("&", "")
+    # a Cow prints as what it holds; a String prints as the str it holds
+    for _ in range(3):
+        ty2 = re.sub(r"alloc::borrow::Cow<'_, ((?:[^<>]|<[^<>]*>)*)>", r"\1", ty)
+        if ty2 == ty:
+            break
+        ty = ty2
+    return re.sub(r"\balloc::string::String\b", "str", ty)
 
 
 def _loop_blocks(body, headers):
